@@ -26,6 +26,9 @@ TSForms == {<<>>, <<Sp(D, 4)>>, <<Sp(D, 1), Sp(A, 8)>>}
 \* on both sides and in the TS), all coefficient assignments, TS absent / 1 / 2 species
 AllSides == Sides1 \cup Sides2(Coefs \X Coefs)
 MCRxns == [r : AllSides, p : AllSides, t : TSForms]
+\* quick tier: the coefficient pairs of two-species sides are restricted (3 267 reactions)
+QuickSides == Sides1 \cup Sides2({<<1, 4>>, <<4, 8>>, <<8, 1>>, <<4, 4>>})
+QuickRxns == [r : QuickSides, p : QuickSides, t : TSForms]
 
 TVal == (A :> 2) @@ (AB :> 3) @@ (B :> 4) @@ (D :> 5) @@ (Z :> 6)
 Content(n, f) == CASE f = "e" -> EmptyFn
